@@ -24,6 +24,11 @@ DIRECTED = [
     [[{"t": "bulkget", "ids": [1, 3]}], [{"t": "insert", "id": 1, "v": 6, "m": {"k1": 2, "k2": 1}}]],
     [[{"t": "get", "id": 1}, {"t": "get", "id": 1}], [{"t": "delete", "id": 1}, {"t": "insert", "id": 1, "v": 5, "m": {"k1": 2, "k2": 1}}]],
     [[{"t": "insert", "id": 1, "v": 5, "m": {"k1": 2, "k2": 1}}, {"t": "getwm", "id": 1}], [{"t": "insert", "id": 1, "v": 6, "m": {"k1": 1, "k2": 2}}, {"t": "getwm", "id": 1}]],
+    # id 4: canonical only, NOT cached, version 1 - a read admits it into the document cache while a delete + reinsert
+    # (version restarts at 1) runs in between; the second read must not serve the admitted old value
+    [[{"t": "get", "id": 4}, {"t": "get", "id": 4}], [{"t": "delete", "id": 4}, {"t": "insert", "id": 4, "v": 5, "m": {"k1": 2, "k2": 1}}]],
+    [[{"t": "get", "id": 4}, {"t": "aware", "id": 4}], [{"t": "delete", "id": 4}, {"t": "insert", "id": 4, "v": 6, "m": {"k1": 1, "k2": 2}}]],
+    [[{"t": "getwm", "id": 4}, {"t": "get", "id": 4}], [{"t": "insert", "id": 4, "v": 5, "m": {"k1": 2, "k2": 1}}]],
 ]
 
 
@@ -69,7 +74,7 @@ def explore_combo(ck, ci, progs, tier, rng, stats, hists, meta):
     scheds += sc.random_schedules(rng, lockprogs, 10 if tier == "quick" else 400, 5)
     reports = sc.run_many("base", progs, scheds)
     for s, rep in zip(scheds, reports):
-        stats["runs"] += 1
+        stats["replays"] += 1
         if rep["outcome"] != "completed":
             stats["stuck"] += 1
             ck.drift("schedule replay of combination %d did not complete (%s): handed to C08" % (ci, rep["outcome"]))
@@ -118,11 +123,14 @@ def run(tier):
     ck = Check("C05", tier)
     vlib.build()
     rng = random.Random(seed())
-    stats = {"combinations": 0, "schedules_enumerated": 0, "runs": 0, "stuck": 0, "diverged": 0, "skipped": 0, "rejected": 0}
+    stats = {"combinations": 0, "schedules_enumerated": 0, "replays": 0, "stuck": 0, "diverged": 0, "skipped": 0, "rejected": 0}
     r = tlc("ConcGen", consts={"MaxLen": 2, "NThreads": 2, "WithSnapshot": "FALSE"}, workers=4, timeout=600)
     ck.add_tlc("ConcGen (2 threads, <= 2 ops)", r)
     pool = sorted(r.json_lines, key=lambda x: json.dumps(x, sort_keys=True))
-    combos = list(DIRECTED) + rng.sample(pool, 6 if tier == "quick" else 60)
+    r2 = tlc("ConcGen", consts={"MaxLen": 2, "NThreads": 2, "WithSnapshot": "FALSE", "SharedIds": "{1, 4}"}, workers=4, timeout=600)
+    ck.add_tlc("ConcGen (2 threads, <= 2 ops, ids {1,4})", r2)
+    pool2 = sorted(r2.json_lines, key=lambda x: json.dumps(x, sort_keys=True))
+    combos = list(DIRECTED) + rng.sample(pool, 3 if tier == "quick" else 40) + rng.sample(pool2, 3 if tier == "quick" else 40)
     if tier == "thorough":
         r3 = tlc("ConcGen", consts={"MaxLen": 1, "NThreads": 3, "WithSnapshot": "FALSE"}, workers=4, timeout=600)
         ck.add_tlc("ConcGen (3 threads)", r3)
